@@ -27,7 +27,7 @@ EXPLANATION = (
 )
 
 MANIFEST = {
-    "technique": "static analysis: stage discovery, helper effect summaries, nullness-aware CFG path queries for must-inspect-exit-status and bounded waits, liveness of unbounded queues, handler-swallow analysis incl. context managers, finite-domain evaluation of the exit-status test (every failing exit code of every worker raises); exception landing by exception class (handlers / finally blocks on the way out); blocking queue flush on the exception path of a status check; receive delegated to helpers (effect summaries incl. blocking vs timed get); mutation of a worker list while it is iterated; pool objects / context managers taken apart before the stage analysis; no unbounded wait (join without timeout) between a failed exit status and the raise; a handler for queue timeouts must not cover the processing call; a join / status loop that removes entries from the list it walks; any non-re-raising handler around a context manager's yield",
+    "technique": "static analysis: stage discovery, helper effect summaries, nullness-aware CFG path queries for must-inspect-exit-status and bounded waits, liveness of unbounded queues, handler-swallow analysis incl. context managers, finite-domain evaluation of the exit-status test (every failing exit code of every worker raises); exception landing by exception class (handlers / finally blocks on the way out); blocking queue flush on the exception path of a status check; receive delegated to helpers (effect summaries incl. blocking vs timed get); mutation of a worker list while it is iterated; pool objects / context managers taken apart before the stage analysis; no unbounded wait (join without timeout) between a failed exit status and the raise; a handler for queue timeouts must not cover the processing call; a join / status loop that removes entries from the list it walks; any non-re-raising handler around a context manager's yield; feeder join before status check: CFG path query from the last put of image-carrying items to join_thread() avoiding every inspection of the workers' exit status",
     "text": "Decides on all paths of every parallel stage, worker and serial sibling the structural premises under which a processing error must surface in the caller (exit status inspected after join; liveness observed in every unbounded wait; no swallowing handler or context manager).",
     "note": "Trusted: a Python worker process that raises exits with a non-zero exitcode; Process.join/exitcode/is_alive contracts. Residual not covered: queue.join_thread() can block if all workers die with more than a pipe buffer of items pending.",
 }
@@ -56,6 +56,7 @@ def run(run):
         run.note_func(st.worker)
         _r1(run, st)
         _r2(run, st)
+        _r2_feeder_join(run, st)
         _r3_handlers(run, st.worker, "worker of " + st.name, _worker_get_calls(st))
         _r3_handlers(run, st.func, "stage", [])
         caller, ifnode, arm = _dispatcher_and_serial(project, st)
@@ -125,6 +126,46 @@ def _status_sites(project, st):
                     out.append((n, "helper " + tgt.short))
                     break
     return out
+
+
+def _r2_feeder_join(run, st):
+    """`queue.join_thread()` waits without bound for the queue's feeder thread, which makes progress only while some worker reads
+    the pipe.  Items of bounded, small size (tile positions) always fit into the pipe buffer, so the feeder finishes whatever the
+    workers do; items that carry *images* do not (about 1 MB pickled against a 64 KiB pipe).  A stage that sends images and joins
+    the feeder before it has looked at the workers' exit status neither fails nor returns when every worker died with a few items
+    pending: no put timed out (so no status check ran) and the feeder blocks on a pipe nobody reads (F16)."""
+    project, cfg, f = run.project, st.cfg, st.func
+    joins = [n for n in cfg.nodes for c in cfg.calls_at(n) if callee_attr(c) == "join_thread" and isinstance(c.func, ast.Attribute)
+             and isinstance(c.func.value, ast.Name) and c.func.value.id in st.queues]
+    if not joins:
+        return
+    # do the items sent on that queue carry images?  (the loop variable of a loop over <collection>.images(), also through zip / enumerate)
+    image_vars = set()
+    for lp in [x for x in own_nodes(f.node) if isinstance(x, ast.For)]:
+        if any(isinstance(y, ast.Call) and callee_attr(y) == "images" for y in ast.walk(lp.iter)):
+            image_vars |= {y.id for y in ast.walk(lp.target) if isinstance(y, ast.Name)}
+    big = []
+    for n in cfg.nodes:
+        for c in cfg.calls_at(n):
+            if callee_attr(c) in ("put", "put_to_workers", "put_nowait") or (common.resolve_callee(project, f, c) is not None and
+                                                                             "put" in str(common.summarize(project, common.resolve_callee(project, f, c)))):
+                if any(isinstance(y, ast.Name) and y.id in image_vars for a in list(c.args) + [k.value for k in c.keywords] for y in ast.walk(a)):
+                    big.append(n)
+    if not big:
+        run.holds("C19.R2", f, joins[0].ast, "%s: join_thread() on a queue of small items (tile positions): the feeder always finishes" % st.name, stage=st.name)
+        return
+    status = {n.id for n, _how in _status_sites(project, st)}
+    for j in joins:
+        # is the feeder join reachable from the last large put without passing an inspection of the workers' status?
+        reach = set()
+        for b in big:
+            reach |= cfg.reachable(b.id, avoid=status, skip_labels=("exc",))
+        if j.id in reach:
+            run.violated("C19.R2", f, j.ast, "%s sends images to its workers and then waits in join_thread() (line %d) before the workers' exit status is inspected: if every "
+                         "worker has died while a few of these large items are still pending (no put timed out, so no status check ran), the feeder thread blocks on a pipe nobody "
+                         "reads and the stage neither raises nor returns" % (st.name, j.ast.lineno), kind="feeder-join-before-status-check", stage=st.name)
+        else:
+            run.holds("C19.R2", f, j.ast, "%s: the workers' status is inspected before the feeder is joined" % st.name, stage=st.name)
 
 
 def _helper_checks_after_join(project, tgt):
